@@ -82,88 +82,124 @@ class Unreadable(Exception):
     pass
 
 
-def read_pieces(gen: Dict[str, str], form: Dict[str, Any], banks: List[str]) -> Dict[str, Any]:
-    """-> {"ty": column type, "vector": bool, "lines": canonical kept lines, "fill": canonical fill rhs, "body": raw body
-    lines, "col_decl": header line}.  Raises Unreadable when the text has not the expected shape."""
+SUM_UPD = re.compile(r"^(\w+) = \((\w+)\+(\w+)->(\w+)\(\)\);$")
+
+
+def read_query(gen: Dict[str, str], forms: List[Dict[str, Any]]) -> List[Dict[str, Any]]:
+    """Read one generated query that fills len(forms) columns (column k of a row is `_c<k>…`; a single column is
+    whatever the one column is called).  -> per column {"ty", "vector", "lines", "fill", "leaf_decls", "leaf_types", …}.
+    Raises Unreadable when the text has not the expected shape."""
     body = execute_body(gen["cxx"])
     cols = [m for m in (COL_DECL.match(l.strip()) for l in gen["h"].split("\n")) if m]
-    if len(cols) != 1:
-        raise Unreadable(f"{len(cols)} column declarations in query.h")
-    col_ty = cols[0].group(2) or cols[0].group(1)
-    col_name = cols[0].group(3)
-    is_vec = cols[0].group(2) is not None
+    if len(cols) != len(forms):
+        raise Unreadable(f"{len(cols)} column declarations in query.h for {len(forms)} columns")
+    if len(forms) > 1:
+        by_prefix = []
+        for k in range(len(forms)):
+            hit = [m for m in cols if re.match(rf"^_c{k}\d+$", m.group(3))]
+            if len(hit) != 1:
+                raise Unreadable(f"column c{k} not found in query.h")
+            by_prefix.append(hit[0])
+        cols = by_prefix
+    col_names = [m.group(3) for m in cols]
+    single = len(forms) == 1
 
-    ren: Dict[str, str] = {col_name: "COL"}
-    n_it = n_ei = 0
+    ren: Dict[str, str] = {}
+    n_it = 0
     decls = []  # (type, name, init)
     for l in body:
         m = LOOP.match(l)
         if m and m.group(1) not in ren:
-            ren[m.group(1)] = f"it{n_it}"
+            ren[m.group(1)] = f"it{n_it}" if single else "itX"
             n_it += 1
         m = EI_DECL.match(l)
         if m and m.group(1) not in ren:
             ren[m.group(1)] = "ei0"  # every fetch of the singleton "EI" denotes the same object
-            n_ei += 1
         m = SCALAR_DECL.match(l)
         if m:
             decls.append((m.group(1), m.group(2), m.group(3)))
-    # count leaves: `int X (0);` whose only update is `X = (X+1);`, in order of declaration
-    n_counts = len(banks)
-    counts = []
-    for ty, name, init in decls:
-        if ty == "int" and init == "0" and f"{name} = ({name}+1);" in body and len(counts) < n_counts:
-            counts.append(name)
-    if len(counts) != n_counts:
-        raise Unreadable(f"expected {n_counts} counting loops, found {len(counts)}")
-    for bank, name in zip(banks, counts):  # k-th counting loop (evaluation order) = k-th Count() of the source
-        ren[name] = f"cnt{list(X.CNT_SLOTS).index(bank)}"
-    others = [(ty, name, init) for ty, name, init in decls if name not in counts]
-    accs = [d for d in others if d[2] is not None]
-    ifs = [d for d in others if d[2] is None]
-    want_acc = 1 if form["form"] == "agg" else 0
-    has_cond = form["form"] == "cond" or (form["form"] == "agg" and "cond" in form["upd"])
-    if len(accs) != want_acc or len(ifs) != (1 if has_cond else 0):
-        raise Unreadable(f"declarations {others} do not fit the form {form['form']}")
-    if accs:
-        ren[accs[0][1]] = "A"
+    # aggregate operands (Count of a bank, Sum of an accessor): the k-th accumulator declared is the k-th aggregate
+    # of the source in evaluation order; its declared type is READ here, never assumed
+    aggs = [a for f in forms for a in X.aggs_of(f)]
+    acc_decls = [d for d in decls if d[2] is not None]
+    ifs = [d for d in decls if d[2] is None]
+    form0 = forms[0]
+    want_acc = 1 if (single and form0["form"] == "agg") else 0
+    has_cond = single and (form0["form"] == "cond" or (form0["form"] == "agg" and "cond" in form0["upd"]))
+    if len(acc_decls) != len(aggs) + want_acc or len(ifs) != (1 if has_cond else 0):
+        raise Unreadable(f"declarations {decls} do not fit {len(aggs)} aggregate operands and the form {form0['form']}")
+    leaf_decls: List[str] = []
+    leaf_types: Dict[str, str] = {}
+    leaf_names = set()
+    for a, (ty, name, init) in zip(aggs, acc_decls):
+        cname, _ = X.agg_canon(a)
+        upd = [l for l in body if l.startswith(name + " = ")]
+        if a[0] == "Count":
+            ok = upd == [f"{name} = ({name}+1);"]
+        else:
+            m = SUM_UPD.match(upd[0]) if len(upd) == 1 else None
+            ok = bool(m) and m.group(2) == name and m.group(4) == a[1]
+        if not ok:
+            raise Unreadable(f"accumulator {name} is not updated like {a}: {upd}")
+        if leaf_types.get(cname, ty) != ty:
+            raise Unreadable(f"two accumulators for {cname} with different types")
+        ren[name] = cname
+        leaf_names.add(name)
+        d = f"{ty} {cname} ({init});"
+        if d not in leaf_decls:
+            leaf_decls.append(d)
+        leaf_types[cname] = ty
+    others = [d for d in decls if d[1] not in leaf_names]
+    if want_acc:
+        ren[[d for d in others if d[2] is not None][0][1]] = "A"
     if ifs:
         ren[ifs[0][1]] = "R"
+    for k, n in enumerate(col_names):
+        ren[n] = "COL" if single else f"COL{k}"
 
     def canon(s: str) -> str:
         return re.sub(r"\b\w+\b", lambda m: ren.get(m.group(0), m.group(0)), s)
 
     kept: List[str] = []
-    fill: Optional[str] = None
+    fills: Dict[str, str] = {}
     scalar_names = {d[1] for d in others}
     for l in body:
         m = SCALAR_DECL.match(l)
         if m:
-            if m.group(2) in counts:
-                continue
-            kept.append(canon(l))
+            if m.group(2) not in leaf_names:
+                kept.append(canon(l))
             continue
         if IFLINE.match(l) or l == "else":
             kept.append(canon(l))
             continue
         m = PUSH.match(l)
-        if m and m.group(1) == col_name:
-            if fill is not None:
-                raise Unreadable("two fills of the column")
-            fill = canon(m.group(2))
+        if m and m.group(1) in col_names:
+            if m.group(1) in fills:
+                raise Unreadable("two fills of a column")
+            fills[m.group(1)] = canon(m.group(2))
             continue
         m = ASSIGN.match(l)
         if m:
-            if m.group(1) == col_name:
-                if fill is not None:
-                    raise Unreadable("two fills of the column")
-                fill = canon(m.group(2))
+            if m.group(1) in col_names:
+                if m.group(1) in fills:
+                    raise Unreadable("two fills of a column")
+                fills[m.group(1)] = canon(m.group(2))
             elif m.group(1) in scalar_names:
                 kept.append(canon(l))
-            # everything else (jetsN = result; cntK = (cntK+1);) is not C13's subject
-    if fill is None:
-        raise Unreadable("no statement fills the column")
-    return {"ty": col_ty, "vector": is_vec, "lines": kept, "fill": fill, "body": body, "col_decl": cols[0].group(0), "col_name": col_name}
+            # everything else (jetsN = result; the accumulation of an aggregate operand) is not C13's subject here
+    if not single and kept:
+        raise Unreadable(f"unexpected statements in a multi-column row: {kept}")
+    out = []
+    for k, (m, f) in enumerate(zip(cols, forms)):
+        if m.group(3) not in fills:
+            raise Unreadable(f"no statement fills column {k}")
+        mine = [X.agg_canon(a)[0] for a in X.aggs_of(f)]
+        out.append({
+            "ty": m.group(2) or m.group(1), "vector": m.group(2) is not None, "lines": kept, "fill": fills[m.group(3)],
+            "leaf_decls": [d for d in leaf_decls if d.split()[1] in mine], "leaf_types": {n: t for n, t in leaf_types.items() if n in mine},
+            "body": body, "col_decl": "\n  ".join(c.group(0) for c in cols), "col_name": m.group(3),
+        })
+    return out
 
 
 def impl_for_spec(p: Dict[str, Any], form: Dict[str, Any]) -> Dict[str, Any]:
@@ -214,20 +250,26 @@ def impl_for_spec(p: Dict[str, Any], form: Dict[str, Any]) -> Dict[str, Any]:
 
 def run(form: Dict[str, Any], level: str) -> Dict[str, Any]:
     """Translate the form's query with the real code. -> {"err":cls} | {"unreadable":why, …} | pieces"""
-    q = X.form_src(form, level)
+    return run_row([form], level, X.form_src(form, level))[0]
+
+
+def run_row(forms: List[Dict[str, Any]], level: str, q: str) -> List[Dict[str, Any]]:
+    """One query, one result per column (all columns share a refusal / an unreadable text)."""
     gen = translate_query(q)
     if "frontend" in gen:
-        return {"frontend": gen["frontend"], "msg": gen["msg"], "query": q}
+        return [{"frontend": gen["frontend"], "msg": gen["msg"], "query": q} for _ in forms]
     if "err" in gen:
-        return {"err": gen["err"], "msg": gen["msg"], "query": q}
+        return [{"err": gen["err"], "msg": gen["msg"], "query": q} for _ in forms]
     try:
-        p = read_pieces(gen, form, X.banks_of(form))
-        p["spec"] = impl_for_spec(p, form)
+        ps = read_query(gen, forms)
+        for p, f in zip(ps, forms):
+            p["spec"] = impl_for_spec(p, f)
     except Unreadable as e:
-        return {"unreadable": str(e), "query": q, "body": execute_body(gen["cxx"]), "gen": gen}
-    p["query"] = q
-    p["gen"] = gen
-    return p
+        return [{"unreadable": str(e), "query": q, "body": execute_body(gen["cxx"]), "gen": gen} for _ in forms]
+    for p in ps:
+        p["query"] = q
+        p["gen"] = gen
+    return ps
 
 
 def canon_impl(r: Dict[str, Any]) -> Dict[str, Any]:
@@ -235,7 +277,7 @@ def canon_impl(r: Dict[str, Any]) -> Dict[str, Any]:
         return {"err": r["err"]}
     if "unreadable" in r:
         return {"unreadable": r["unreadable"]}
-    return {"ty": r["ty"], "lines": r["lines"] + [r["fill"]]}
+    return {"ty": r["ty"], "lines": sorted(r.get("leaf_decls", [])) + r["lines"] + [r["fill"]]}
 
 
 def canon_model(m: Dict[str, Any], form: Dict[str, Any]) -> Dict[str, Any]:
@@ -243,7 +285,14 @@ def canon_model(m: Dict[str, Any], form: Dict[str, Any]) -> Dict[str, Any]:
         return {"err": m["err"]}
     if "ok" not in m:
         return m
-    lines = list(m["ok"]["lines"])
+    # an aggregate operand is an accumulator of the type sum_correct / count_correct prove, seeded with the int 0
+    lines = []
+    for a in X.aggs_of(form):
+        name, ty = X.agg_canon(a)
+        d = f"{ty} {name} (0);"
+        if d not in lines:
+            lines.append(d)
+    lines = sorted(lines) + list(m["ok"]["lines"])  # the order in which accumulators are declared is not C13's subject
     if form["form"] == "cond":
         lines.append("R")
     elif form["form"] == "agg":
